@@ -101,11 +101,16 @@ func c13FreeChild(args []string) {
 	var srcCtr int64
 	evalSrc := "a := 1\nb := \"v{{a + 1}}w{{ {1:2}[1] }}\"\nif a == 1 { c := {1:b} }\nc"
 	evalOnce := func() string {
-		erp, name := erp, "c13e"
 		if n := atomic.AddInt64(&srcCtr, 1); n%2 == 0 {
-			erp, name = erpDbg, fmt.Sprintf("c13e-%d", n%64)
+			// construction of the runtime components through the provider with the debugger (not evaluated: what the
+			// debugger does while a program RUNS is the subject of C15, not of C13)
+			if dast, err := parser.ParseWithRuntime(fmt.Sprintf("c13e-%d", n%64), evalSrc, erpDbg); err != nil {
+				return "ERR " + err.Error()
+			} else if err := dast.Runtime.Validate(); err != nil {
+				return "ERR " + err.Error()
+			}
 		}
-		ast, err := parser.ParseWithRuntime(name, evalSrc, erp)
+		ast, err := parser.ParseWithRuntime("c13e", evalSrc, erp)
 		if err != nil {
 			return "ERR " + err.Error()
 		}
